@@ -1,1 +1,24 @@
-// harness file dp_master (see /verif/DESIGN.md)
+// C14 (and DP parts of C05) harnesses: DP master cycle and event accounting (src/dp/master.rs).
+//
+// Included as `crate::dp::master::verif` under cfg(kani).
+
+use super::*;
+use crate::verif_support::*;
+
+/// A DP master state in the given operating state (constructor for other harness files).
+pub(crate) fn mk_dp_state(op: OperatingState) -> DpMasterState {
+    DpMasterState {
+        operating_state: op,
+        last_global_control: None,
+        cycle_state: CycleState::DataExchange(0),
+        last_events: Default::default(),
+    }
+}
+
+pub(crate) fn any_operating() -> OperatingState {
+    if kani::any() {
+        OperatingState::Operate
+    } else {
+        OperatingState::Clear
+    }
+}
